@@ -141,9 +141,10 @@ def explore(ctx, h, drv, n, label, trim=0):
     r = C.Rng(ctx.seed, "c03/" + label)
     cases = [make_case(r, label, i) for i in range(n)]
     if trim:
-        nrec, wal = r.choice([3, 40, 150]), r.randrange(2)
-        ctx.hist("trim-sweep:nrec=%d" % nrec)
-        cases += [make_trim_case(r, label, n + m, m, nrec if m % trim else r.choice([3, 40, 150]), wal) for m in range(1, 65)]
+        wal = r.randrange(2)
+        for j, nrec in enumerate([3, 40, 150]):
+            ctx.hist("trim-sweep:nrec=%d" % nrec)
+            cases += [make_trim_case(r, label, n + 64 * j + m, m, nrec, wal if m % trim else 1 - wal) for m in range(1, 65)]
     for c in cases[:2]:
         ctx.sample(dict(kind="cycles", n_ops=len(c.ops), opens=[l for l in c.ops if l.startswith("open")][:6]))
     for c in cases:
